@@ -476,37 +476,40 @@ def diagnose(src, cs, raised, rows, att):
             want.append(min(cs, max(0, n - pos)))
             pos += s
         if sizes != want:
-            put("chunks-resized", "chunks of %s records were delivered where chunks of %s were due (chunk size %d)"
-                % (sizes[:12], want[:12], cs))
-    # the loads: what the successful ones cover
+            d = next(i for i, (x, y) in enumerate(zip(sizes + [None], want + [None])) if x != y)
+            put("chunks-resized", "from chunk #%d on chunks of %s records were delivered where chunks of %s were due (chunk size %d)"
+                % (d, sizes[d:d + 10], want[d:d + 10], cs))
+    # the loads, walked against the requests of the healthy pass: a failed load does not advance
     if src["kind"] in ("df", "hdf5", "fits"):
-        good = [(int(e["req"][0] or 0), min(int(n if e["req"][1] is None else e["req"][1]), n)) for e in att if not e["failed"]]
-        cover = [r for a, b in good for r in range(a, b)]
+        reqs = [((int(e["req"][0] or 0), min(int(n if e["req"][1] is None else e["req"][1]), n)), e["failed"]) for e in att]
+        want = [(lo, min(lo + cs, n)) for lo in range(0, n, cs)]
         if any((e["req"][1] or 0) - (e["req"][0] or 0) > cs for e in att):
             put("request-above-chunk-size", "a request above the chunk size: %s" % [e["req"] for e in att][:8])
-        if not raised:
-            missing = sorted(set(range(n)) - set(cover))
-            if missing:
-                put("records-missing", "records %s..%s (%d) were never requested successfully" % (missing[0], missing[-1], len(missing)))
-        rep = sorted({r for r in cover if cover.count(r) > 1})
-        if rep:
-            put("records-repeated", "records %s were loaded more than once" % rep[:6])
-        want = [(lo, min(lo + cs, n)) for lo in range(0, n, cs)]
-        if not label and good != want[:len(good)]:
-            put("chunks-resized", "the source was asked for %s where %s was due" % (good[:8], want[:8]))
+        unit = "rows"
     elif src["kind"] == "random":
-        good = [e["req"][1] for e in att if not e["failed"]]
-        want = [min(cs, n - lo) for lo in range(0, n, cs)]
-        if not label and (good != want[:len(good)] or (not raised and len(good) != len(want))):
-            put("chunks-resized" if sum(good) == n else ("records-missing" if sum(good) < n else "records-repeated"),
-                "the generator was asked for %s points where %s were due" % (good[:8], want[:8]))
+        reqs = [((0, int(e["req"][1])), e["failed"]) for e in att]
+        want = [(0, min(cs, n - lo)) for lo in range(0, n, cs)]
+        unit = "points"
     else:
-        good = [e["req"][0] for e in att if not e["failed"]]
-        g = len(src["groups"])
-        if not label and (good != list(range(len(good))) or (not raised and len(good) != g)):
-            miss = sorted(set(range(g)) - set(good))
-            put("records-missing" if miss and not raised else "records-repeated",
-                "row groups loaded: %s of %d" % (good[:12], g))
+        reqs = [((int(e["req"][0]), int(e["req"][0]) + 1), e["failed"]) for e in att]
+        want = [(i, i + 1) for i in range(len(src["groups"]))]
+        unit = "row groups"
+    p = 0
+    for j, (r, failed) in enumerate(reqs):
+        due = want[p] if p < len(want) else None
+        if r != due:
+            if due is None or r[0] > due[0]:
+                lab = "records-missing"
+            elif r[0] < due[0]:
+                lab = "records-repeated"
+            else:
+                lab = "chunks-resized"
+            put(lab, "load #%d of the pass asked for %s %s where %s was due" % (j, unit, r, "nothing more" if due is None else due))
+            break
+        p += 0 if failed else 1
+    else:
+        if not raised and p < len(want):
+            put("records-missing", "the pass ended although %s %s.. had not been loaded" % (unit, want[p]))
     return label or "differs-from-model", notes
 
 
